@@ -67,6 +67,20 @@ pub fn solve_inline(input: &Value, want_snapshots: bool) -> ChildResult {
     }
 }
 
+/// `rsv solve-one-internal`: the command-line entry point's pipeline (`internal::run`, what
+/// `single_run` executes) on the instance read from stdin; no hooks there, only the answer.
+pub fn solve_one_internal_main() -> i32 {
+    sut::silence_stdout();
+    let mut input = String::new();
+    std::io::stdin().read_to_string(&mut input).expect("stdin");
+    let input: Value = serde_json::from_str(&input).expect("instance json");
+    match sut::catch(|| internal::run(input.clone())) {
+        Err(p) => sut::outln(&json!({"status": "panic", "msg": p.msg, "loc": p.loc, "file": p.file()}).to_string()),
+        Ok(out) => sut::outln(&json!({"status": "answer", "output": out, "snapshots": []}).to_string()),
+    }
+    0
+}
+
 pub fn solve_one_main() -> i32 {
     sut::silence_stdout();
     let mut input = String::new();
@@ -523,6 +537,28 @@ impl Engine for PipelineEngine {
                 ChildResult::Broken(e) => {
                     o.inconclusive = Some(format!("[{}] child broken: {}", profile, e));
                 }
+            }
+        }
+        // the second entry point: `internal::run` (single_run) must return valid answers too.
+        // Every third case, optimised build, answer validated by O-JSON only (no hooks there).
+        if !self.in_process && o.inconclusive.is_none() && o.excluded.is_none() && tape.digest() % 3 == 0 {
+            match run_child("release", &["solve-one-internal"], &input_s, self.watchdog, &[]) {
+                ChildResult::Answer { output, .. } => {
+                    let (mut fs, _facts, _parsed) = ojson::validate(&fl, &output);
+                    for f in fs.iter_mut() {
+                        f.msg = format!("[single_run/internal::run] {}", f.msg);
+                    }
+                    o.findings.extend(fs);
+                    classes.push("internal_run_checked".into());
+                }
+                ChildResult::Panic { msg, file, loc } => {
+                    o.findings.push(Finding { prop: "C06", msg: format!("[single_run/internal::run] PANIC at {} ({}): {}", file, loc, msg.chars().take(300).collect::<String>()) });
+                }
+                ChildResult::Timeout => {
+                    WATCHDOG_EXPIRIES.fetch_add(1, std::sync::atomic::Ordering::SeqCst);
+                    o.inconclusive = Some(format!("[single_run/internal::run] no answer within {:?}", self.watchdog));
+                }
+                ChildResult::Broken(e) => o.inconclusive = Some(format!("[internal] child broken: {}", e)),
             }
         }
         if self.prop == "C06" {
